@@ -1,6 +1,1597 @@
-//! C17 — stub (monitor not built yet).
-use crate::core::Ctx;
+//! C17 — X.509 times, validity windows and certificate serial numbers.
+//!
+//! Oracles (all written here, none uses chrono or the code under test):
+//!  * a proleptic Gregorian calendar (`days_from_civil`, closed form for the
+//!    years, month table for the rest) cross-checked against a running day
+//!    counter while every day of the years 1..=9999 is enumerated;
+//!  * a strict parser for the two RFC 5280 time forms (`oracle_parse`);
+//!  * interval membership / intersection on i64 seconds for `Validity`;
+//!  * big-integer decimal conversion, minimal DER INTEGER (`crate::der`) and
+//!    big-integer comparison for `Serial`.
+//!
+//! chrono is only used to *construct* `Time` values from an instant
+//! (`DateTime::from_timestamp`) and to read the instant back
+//! (`timestamp()`), which is the observation point of the property.
+
+use crate::core::{hex, Ctx, Stage, Tier};
+use crate::der;
+use bcder::encode::{PrimitiveContent, Values};
+use bcder::Mode;
+use chrono::{DateTime, Utc};
+use rpki::repository::x509::{Serial, Time, Validity};
+use serde_json::json;
+use std::cmp::Ordering;
+use std::str::FromStr;
+
+//============ Oracle: calendar ===============================================
+
+fn is_leap(y: i64) -> bool {
+    (y % 4 == 0 && y % 100 != 0) || y % 400 == 0
+}
+
+fn days_in_month(y: i64, m: u32) -> u32 {
+    match m {
+        1 | 3 | 5 | 7 | 8 | 10 | 12 => 31,
+        4 | 6 | 9 | 11 => 30,
+        2 => {
+            if is_leap(y) {
+                29
+            } else {
+                28
+            }
+        }
+        _ => 0,
+    }
+}
+
+/// Days between 0001-01-01 and 1970-01-01.
+const EPOCH_FROM_YEAR1: i64 = 719_162;
+
+/// Days since 1970-01-01 of a (valid) civil date, y >= 1.
+fn days_from_civil(y: i64, m: u32, d: u32) -> i64 {
+    let py = y - 1;
+    let before_year = py * 365 + py / 4 - py / 100 + py / 400;
+    let mut doy: i64 = 0;
+    for mm in 1..m {
+        doy += days_in_month(y, mm) as i64;
+    }
+    before_year + doy + (d as i64 - 1) - EPOCH_FROM_YEAR1
+}
+
+fn instant_of(y: i64, m: u32, d: u32, h: u32, mi: u32, s: u32) -> i64 {
+    days_from_civil(y, m, d) * 86_400 + (h as i64) * 3600 + (mi as i64) * 60 + s as i64
+}
+
+/// Anchors known from outside this program. Returns false if the oracle
+/// itself is broken (then nothing is judged).
+fn oracle_selftest() -> bool {
+    days_from_civil(1970, 1, 1) == 0
+        && days_from_civil(2000, 1, 1) == 10_957
+        && days_from_civil(2000, 3, 1) == 11_017
+        && days_from_civil(1900, 3, 1) == -25_508
+        && days_from_civil(1, 1, 1) == -719_162
+        && days_from_civil(9999, 12, 31) == 2_932_896
+        && instant_of(2038, 1, 19, 3, 14, 7) == 2_147_483_647
+        && instant_of(2001, 9, 9, 1, 46, 40) == 1_000_000_000
+        && instant_of(1950, 1, 1, 0, 0, 0) == -631_152_000
+        && instant_of(2050, 1, 1, 0, 0, 0) == 2_524_608_000
+        && !is_leap(1900)
+        && is_leap(2000)
+        && !is_leap(2100)
+        && is_leap(4)
+        && !is_leap(1)
+}
+
+//============ Oracle: strict time parser =====================================
+
+const T_UTC: u8 = 0x17;
+const T_GEN: u8 = 0x18;
+
+#[derive(Clone, Copy, Debug, PartialEq, Eq)]
+enum Reason {
+    Tag,
+    Length,
+    Terminator,
+    NonDigit(u8),
+    Month,
+    Day,
+    Hour,
+    Minute,
+    Second,
+}
+
+impl Reason {
+    fn text(self) -> String {
+        match self {
+            Reason::Tag => "not-a-time-tag".into(),
+            Reason::Length => "wrong-length".into(),
+            Reason::Terminator => "no-Z-terminator".into(),
+            Reason::NonDigit(b) => format!("nondigit-0x{:02x}", b),
+            Reason::Month => "month-out-of-range".into(),
+            Reason::Day => "day-not-in-month".into(),
+            Reason::Hour => "hour-out-of-range".into(),
+            Reason::Minute => "minute-out-of-range".into(),
+            Reason::Second => "second-out-of-range".into(),
+        }
+    }
+}
+
+#[derive(Clone, Copy, Debug, PartialEq, Eq)]
+enum Parsed {
+    /// A real calendar second in the years 1..=9999.
+    Accept { instant: i64, year: i64 },
+    /// Strictly formed, but the statement does not say (year 0000).
+    Unspecified,
+    Reject(Reason),
+}
+
+fn two(b: &[u8]) -> u32 {
+    ((b[0] - b'0') as u32) * 10 + (b[1] - b'0') as u32
+}
+
+/// The statement's grammar: fixed width, all digits, 'Z', real date and time,
+/// two-digit-year pivot at 50.
+fn oracle_parse(tag: u8, content: &[u8]) -> Parsed {
+    let ylen = match tag {
+        T_UTC => 2,
+        T_GEN => 4,
+        _ => return Parsed::Reject(Reason::Tag),
+    };
+    if content.len() != ylen + 11 {
+        return Parsed::Reject(Reason::Length);
+    }
+    if content[ylen + 10] != b'Z' {
+        return Parsed::Reject(Reason::Terminator);
+    }
+    for &b in &content[..ylen + 10] {
+        if !b.is_ascii_digit() {
+            return Parsed::Reject(Reason::NonDigit(b));
+        }
+    }
+    let year: i64 = if ylen == 2 {
+        let yy = two(&content[0..2]) as i64;
+        if yy >= 50 {
+            1900 + yy
+        } else {
+            2000 + yy
+        }
+    } else {
+        two(&content[0..2]) as i64 * 100 + two(&content[2..4]) as i64
+    };
+    let r = &content[ylen..];
+    let (mo, d, h, mi, s) = (two(&r[0..2]), two(&r[2..4]), two(&r[4..6]), two(&r[6..8]), two(&r[8..10]));
+    if !(1..=12).contains(&mo) {
+        return Parsed::Reject(Reason::Month);
+    }
+    // day validity for year 0 is judged as for a leap year (0 % 400 == 0);
+    // an impossible day is rejected whatever the year
+    if d < 1 || d > days_in_month(year, mo) {
+        return Parsed::Reject(Reason::Day);
+    }
+    if h > 23 {
+        return Parsed::Reject(Reason::Hour);
+    }
+    if mi > 59 {
+        return Parsed::Reject(Reason::Minute);
+    }
+    if s > 59 {
+        return Parsed::Reject(Reason::Second);
+    }
+    if year < 1 {
+        return Parsed::Unspecified;
+    }
+    Parsed::Accept { instant: instant_of(year, mo, d, h, mi, s), year }
+}
+
+/// Whether the form is the one the encoder must choose for that year.
+fn canonical_tag(year: i64) -> u8 {
+    if (1950..=2049).contains(&year) {
+        T_UTC
+    } else {
+        T_GEN
+    }
+}
+
+//============ Library access ==================================================
+
+fn time_from_instant(instant: i64) -> Option<Time> {
+    DateTime::<Utc>::from_timestamp(instant, 0).map(Time::new)
+}
+
+/// (whole seconds, sub-second nanoseconds) of a library time.
+fn instant_of_time(t: &Time) -> (i64, u32) {
+    (t.timestamp(), t.timestamp_subsec_nanos())
+}
+
+fn lib_take_from(bytes: &[u8]) -> Option<Time> {
+    Mode::Der.decode(bytes, |cons| Time::take_from(cons)).ok()
+}
+
+fn lib_take_opt_from(bytes: &[u8]) -> Option<Time> {
+    Mode::Der.decode(bytes, |cons| Time::take_opt_from(cons)).ok().flatten()
+}
+
+fn encode_into<V: Values>(v: V, out: &mut Vec<u8>) {
+    out.clear();
+    v.write_encoded(Mode::Der, out).expect("write to Vec");
+}
+
+fn ascii(content: &[u8]) -> String {
+    content
+        .iter()
+        .map(|&b| if (0x20..0x7f).contains(&b) { (b as char).to_string() } else { format!("\\x{:02x}", b) })
+        .collect()
+}
+
+/// Splits a short-form TLV as produced for times. None if it is not one.
+fn split_short_tlv(bytes: &[u8]) -> Option<(u8, &[u8])> {
+    if bytes.len() < 2 || bytes[1] >= 0x80 || bytes.len() != 2 + bytes[1] as usize {
+        return None;
+    }
+    Some((bytes[0], &bytes[2..]))
+}
+
+//============ Part 1: encode → decode over the calendar =======================
+
+struct Counters {
+    evals: u64,
+    utc: u64,
+    gen: u64,
+}
+
+fn date_class(y: i64, m: u32, d: u32) -> &'static str {
+    if matches!(y, 1949 | 1950 | 2049 | 2050) {
+        "pivot-year"
+    } else if m == 2 && d == 29 {
+        "leap-day"
+    } else if m == 2 && d == 28 && !is_leap(y) && y % 100 == 0 {
+        "feb28-nonleap-century"
+    } else if y == 1 || y == 9999 {
+        "range-end-year"
+    } else if m == 12 && d == 31 {
+        "year-end"
+    } else if d == days_in_month(y, m) {
+        "month-end"
+    } else if d == 1 {
+        "month-start"
+    } else {
+        "ordinary"
+    }
+}
+
+fn era(y: i64) -> &'static str {
+    match y {
+        1..=999 => "y0001-0999",
+        1000..=1949 => "y1000-1949",
+        1950..=1999 => "y1950-1999",
+        2000..=2049 => "y2000-2049",
+        _ => "y2050-9999",
+    }
+}
+
+fn tod_class(h: u32, mi: u32, s: u32) -> &'static str {
+    match (h, mi, s) {
+        (0, 0, 0) => "00:00:00",
+        (23, 59, 59) => "23:59:59",
+        _ => "inner",
+    }
+}
+
+/// One calendar second: instant → Time → encode_varied → tag, strict form,
+/// instant; → take_from → same instant.
+#[allow(clippy::too_many_arguments)]
+fn check_second(ctx: &mut Ctx, c: &mut Counters, buf: &mut Vec<u8>, y: i64, m: u32, d: u32, h: u32, mi: u32, s: u32, days: i64, extra: bool) {
+    let instant = days * 86_400 + (h * 3600 + mi * 60 + s) as i64;
+    let lit = || json!({"date": format!("{:04}-{:02}-{:02}T{:02}:{:02}:{:02}Z", y, m, d, h, mi, s), "instant": instant});
+    let t = match time_from_instant(instant) {
+        Some(t) => t,
+        None => {
+            ctx.obs("instants_not_constructible", 1);
+            return;
+        }
+    };
+    encode_into(t.encode_varied(), buf);
+    c.evals += 1;
+    let want_tag = canonical_tag(y);
+    let (tag, content) = match split_short_tlv(buf) {
+        Some(x) => x,
+        None => {
+            ctx.violation("C17:encode:not-a-short-tlv", "encode_varied did not produce one short-form TLV", json!({"case": lit(), "der": hex(buf)}));
+            return;
+        }
+    };
+    if tag == T_UTC {
+        c.utc += 1;
+    } else if tag == T_GEN {
+        c.gen += 1;
+    }
+    if tag != want_tag {
+        let sig = if want_tag == T_UTC { "C17:encode:tag:expected-utctime-1950-2049" } else { "C17:encode:tag:expected-generalizedtime-outside-1950-2049" };
+        ctx.violation(sig, &format!("encode_varied chose tag 0x{:02x} for year {}, expected 0x{:02x}", tag, y, want_tag), json!({"case": lit(), "der": hex(buf)}));
+    }
+    match oracle_parse(tag, content) {
+        Parsed::Accept { instant: oi, .. } => {
+            if oi != instant {
+                ctx.violation(
+                    "C17:encode:names-other-instant",
+                    &format!("encoded text '{}' names instant {} but the value was {}", ascii(content), oi, instant),
+                    json!({"case": lit(), "der": hex(buf)}),
+                );
+            }
+        }
+        other => {
+            ctx.violation(
+                "C17:encode:not-strict-form",
+                &format!("encoded text '{}' is not a strict RFC 5280 time ({:?})", ascii(content), other),
+                json!({"case": lit(), "der": hex(buf)}),
+            );
+        }
+    }
+    match lib_take_from(buf) {
+        Some(back) => {
+            if instant_of_time(&back) != (instant, 0) {
+                ctx.violation(
+                    "C17:roundtrip:instant-changed",
+                    &format!("{} encodes as '{}' and decodes to instant {:?}", instant, ascii(content), instant_of_time(&back)),
+                    json!({"case": lit(), "der": hex(buf)}),
+                );
+            }
+            if back != t {
+                ctx.violation("C17:roundtrip:not-equal", "decoded Time != encoded Time", json!({"case": lit(), "der": hex(buf)}));
+            }
+        }
+        None => {
+            ctx.violation(
+                "C17:roundtrip:own-encoding-rejected",
+                &format!("take_from rejects '{}' produced by encode_varied", ascii(content)),
+                json!({"case": lit(), "der": hex(buf)}),
+            );
+        }
+    }
+    if extra {
+        // the constructor from calendar fields names the same instant
+        let u = Time::utc(y as i32, m, d, h, mi, s);
+        c.evals += 1;
+        if instant_of_time(&u) != (instant, 0) {
+            ctx.violation(
+                "C17:utc-constructor:other-instant",
+                &format!("Time::utc gives instant {:?}, calendar says {}", instant_of_time(&u), instant),
+                lit(),
+            );
+        }
+        // optional-time decoder on the same bytes
+        c.evals += 1;
+        match lib_take_opt_from(buf) {
+            Some(back) if instant_of_time(&back) == (instant, 0) => {}
+            other => {
+                ctx.violation(
+                    "C17:roundtrip:take_opt_from",
+                    &format!("take_opt_from gives {:?} for '{}'", other.map(|t| instant_of_time(&t)), ascii(content)),
+                    json!({"case": lit(), "der": hex(buf)}),
+                );
+            }
+        }
+        // the explicit GeneralizedTime encoder (not reached by encode_varied in 1950..=2049)
+        if want_tag == T_UTC {
+            let mut b2 = Vec::with_capacity(17);
+            encode_into(t.encode_generalized_time(), &mut b2);
+            c.evals += 1;
+            let ok = match split_short_tlv(&b2) {
+                Some((T_GEN, cont)) => matches!(oracle_parse(T_GEN, cont), Parsed::Accept { instant: oi, .. } if oi == instant),
+                _ => false,
+            } && lib_take_from(&b2).map(|b| instant_of_time(&b)) == Some((instant, 0));
+            if !ok {
+                ctx.violation(
+                    "C17:encode_generalized_time:roundtrip",
+                    "encode_generalized_time does not name / decode to the same instant",
+                    json!({"case": lit(), "der": hex(&b2)}),
+                );
+            }
+        } else if (1950..=2049).contains(&(y + 100)) || (1950..=2049).contains(&(y - 100)) {
+            // nothing: UTCTime of other centuries is ambiguous by design
+        }
+    }
+}
+
+/// Walks every day of the given years with a running day counter, checks the
+/// closed-form oracle against it and calls `f` for each day.
+fn for_each_day(ctx: &mut Ctx, mut f: impl FnMut(&mut Ctx, i64, u32, u32, i64)) -> bool {
+    let mut running: i64 = -EPOCH_FROM_YEAR1; // 0001-01-01
+    for y in 1..=9999i64 {
+        for m in 1..=12u32 {
+            for d in 1..=days_in_month(y, m) {
+                if days_from_civil(y, m, d) != running {
+                    ctx.notes.push(format!("C17: oracle calendar disagrees with itself at {y}-{m}-{d}; nothing judged"));
+                    return false;
+                }
+                f(ctx, y, m, d, running);
+                running += 1;
+            }
+        }
+    }
+    running == 2_932_897 // day after 9999-12-31
+}
+
+fn part_calendar(ctx: &mut Ctx) {
+    let mut c = Counters { evals: 0, utc: 0, gen: 0 };
+    let mut buf = Vec::with_capacity(20);
+    let full = ctx.tier == Tier::Thorough && ctx.stage == Stage::Native;
+    let nshards = ctx.nshards.max(1);
+    let shard = ctx.shard;
+    let seed = ctx.seed;
+    // Selection of days for the reduced runs.
+    let boundary_years: &[i64] = &[
+        1, 2, 4, 99, 100, 101, 400, 999, 1000, 1582, 1600, 1699, 1700, 1899, 1900, 1901, 1948, 1949, 1950, 1951, 1969, 1970, 1999, 2000,
+        2001, 2024, 2037, 2038, 2048, 2049, 2050, 2051, 2099, 2100, 2101, 2400, 9996, 9998, 9999,
+    ];
+    let stride: i64 = match (ctx.stage, ctx.tier) {
+        (Stage::Native, Tier::Thorough) => 1,
+        (Stage::Native, Tier::Quick) => 3,
+        _ => 97,
+    };
+    let times: [(u32, u32, u32); 3] = [(0, 0, 0), (12, 34, 56), (23, 59, 59)];
+    let walk = matches!(ctx.stage, Stage::Native | Stage::Asan);
+    let ok = if walk {
+        for_each_day(ctx, |ctx, y, m, d, days| {
+            if (y as u64) % nshards != shard {
+                return;
+            }
+            let boundary_year = boundary_years.contains(&y);
+            if !(stride == 1 || boundary_year || days.rem_euclid(stride) == 0) {
+                return;
+            }
+            for (i, &(h, mi, s)) in times.iter().enumerate() {
+                check_second(ctx, &mut c, &mut buf, y, m, d, h, mi, s, days, i == 1 || boundary_year);
+            }
+            if full {
+                // a fourth second of the day that depends on (seed, day)
+                let mut x = seed ^ (days as u64).wrapping_mul(0x9E37_79B9_7F4A_7C15);
+                let sod = (crate::core::splitmix64(&mut x) % 86_400) as u32;
+                check_second(ctx, &mut c, &mut buf, y, m, d, sod / 3600, sod / 60 % 60, sod % 60, days, false);
+            }
+            let cls = date_class(y, m, d);
+            if cls != "ordinary" || d == 15 {
+                let enc = if canonical_tag(y) == T_UTC { "utctime" } else { "generalizedtime" };
+                ctx.sig(&format!("roundtrip {enc} {} {cls}", era(y)));
+            }
+        })
+    } else {
+        // interpreter stages: no walk over 3.6 M days; key days of the boundary
+        // years plus random days
+        let mut rng = ctx.rng("miri-days");
+        let mut dates: Vec<(i64, u32, u32)> = Vec::new();
+        let scale = if ctx.tier == Tier::Thorough { 2 } else { 1 };
+        for (i, &y) in boundary_years.iter().enumerate() {
+            // pivot years always, the others thinned
+            let pivot = matches!(y, 1949 | 1950 | 2049 | 2050 | 1 | 9999);
+            if (i as u64) % nshards != shard || !(pivot || i % (4 / scale) == 0) {
+                continue;
+            }
+            dates.push((y, 1, 1));
+            if is_leap(y) {
+                dates.push((y, 2, 29));
+            } else {
+                dates.push((y, 2, 28));
+            }
+            dates.push((y, 12, 31));
+        }
+        for _ in 0..ctx.stage_budget((0, 0), 0, 24 * scale as u64, 24) {
+            let y = 1 + rng.below(9999) as i64;
+            let m = 1 + rng.below(12) as u32;
+            let d = 1 + rng.below(days_in_month(y, m) as u64) as u32;
+            dates.push((y, m, d));
+        }
+        for (k, (y, m, d)) in dates.into_iter().enumerate() {
+            let days = days_from_civil(y, m, d);
+            let (h, mi, s) = times[k % 3];
+            check_second(ctx, &mut c, &mut buf, y, m, d, h, mi, s, days, true);
+            let enc = if canonical_tag(y) == T_UTC { "utctime" } else { "generalizedtime" };
+            ctx.sig(&format!("roundtrip {enc} {} {}", era(y), date_class(y, m, d)));
+        }
+        true
+    };
+    if !ok {
+        ctx.notes.push("C17: calendar walk did not end on 9999-12-31; oracle suspect, part 1 not judged".into());
+        return;
+    }
+    if full {
+        ctx.exhaustive = Some(true);
+    }
+    // every second of the days around the pivots, of leap days and of the range ends
+    let second_days: &[(i64, u32, u32)] = &[
+        (1949, 12, 31),
+        (1950, 1, 1),
+        (2049, 12, 31),
+        (2050, 1, 1),
+        (1999, 12, 31),
+        (2000, 1, 1),
+        (2000, 2, 29),
+        (1900, 2, 28),
+        (1900, 3, 1),
+        (2024, 2, 29),
+        (2100, 2, 28),
+        (4, 2, 29),
+        (1, 1, 1),
+        (9999, 12, 31),
+        (1969, 12, 31),
+        (1970, 1, 1),
+        (2038, 1, 19),
+        (9996, 2, 29),
+    ];
+    let mut second_days: Vec<(i64, u32, u32)> = second_days.to_vec();
+    {
+        // further days chosen by the seed (the same list in every shard)
+        let extra = match (ctx.stage, ctx.tier) {
+            (Stage::Native, Tier::Thorough) => 400,
+            (Stage::Native, Tier::Quick) => 14,
+            _ => 2,
+        };
+        let mut rng = crate::core::Rng::derive(ctx.seed, &["C17", "second-days"], &[]);
+        for _ in 0..extra {
+            let y = match rng.below(3) {
+                0 => 1950 + rng.below(100) as i64,
+                _ => 1 + rng.below(9999) as i64,
+            };
+            let m = 1 + rng.below(12) as u32;
+            let d = 1 + rng.below(days_in_month(y, m) as u64) as u32;
+            second_days.push((y, m, d));
+        }
+    }
+    let sec_stride: u32 = match (ctx.stage, ctx.tier) {
+        (Stage::Native, _) => 1,
+        (Stage::Asan, _) => 61,
+        _ => 30011,
+    };
+    for (i, &(y, m, d)) in second_days.iter().enumerate() {
+        if (i as u64) % nshards != shard {
+            continue;
+        }
+        let days = days_from_civil(y, m, d);
+        let mut sod = 0u32;
+        while sod < 86_400 {
+            let (h, mi, s) = (sod / 3600, sod / 60 % 60, sod % 60);
+            check_second(ctx, &mut c, &mut buf, y, m, d, h, mi, s, days, sod % 3600 == 0);
+            sod += sec_stride;
+        }
+        if sec_stride > 1 {
+            check_second(ctx, &mut c, &mut buf, y, m, d, 23, 59, 59, days, true);
+        }
+        let enc = if canonical_tag(y) == T_UTC { "utctime" } else { "generalizedtime" };
+        ctx.sig(&format!("every-second {enc} {:04}-{:02}-{:02} {}", y, m, d, date_class(y, m, d)));
+    }
+    for &(h, mi, s) in &times {
+        ctx.sig(&format!("time-of-day {}", tod_class(h, mi, s)));
+    }
+    ctx.evals(c.evals);
+    ctx.obs("encoded_as_utctime", c.utc);
+    ctx.obs("encoded_as_generalizedtime", c.gen);
+    if shard == 0 {
+        for &(y, m, d, h, mi, s) in &[(1949i64, 12u32, 31u32, 23u32, 59u32, 59u32), (1950, 1, 1, 0, 0, 0), (2049, 12, 31, 23, 59, 59), (2050, 1, 1, 0, 0, 0), (1, 1, 1, 0, 0, 0)] {
+            let instant = instant_of(y, m, d, h, mi, s);
+            if let Some(t) = time_from_instant(instant) {
+                encode_into(t.encode_varied(), &mut buf);
+                let back = lib_take_from(&buf).map(|t| t.timestamp());
+                let der = hex(&buf);
+                ctx.sample("roundtrip", || json!({"date": format!("{:04}-{:02}-{:02}T{:02}:{:02}:{:02}Z", y, m, d, h, mi, s), "oracle_instant": instant, "der": der, "decoded_instant": back}));
+            }
+        }
+    }
+}
+
+//============ Part 2: decoding near-valid strings =============================
+
+const ALPHABET: &[u8] = b"0123456789+- Zz.:";
+
+fn char_class(b: u8) -> &'static str {
+    match b {
+        b'0'..=b'9' => "digit",
+        b'+' | b'-' => "sign",
+        b' ' => "space",
+        b'Z' => "Z",
+        b'z' => "z",
+        b'.' | b':' => "punct",
+        0x80..=0xff => "non-ascii",
+        0..=0x1f | 0x7f => "control",
+        _ => "other",
+    }
+}
+
+fn field_of(tag: u8, pos: usize) -> &'static str {
+    let ylen = if tag == T_UTC { 2 } else { 4 };
+    if pos < ylen {
+        "year"
+    } else {
+        match (pos - ylen) / 2 {
+            0 => "month",
+            1 => "day",
+            2 => "hour",
+            3 => "minute",
+            4 => "second",
+            _ => "Z",
+        }
+    }
+}
+
+struct DecodeStats {
+    evals: u64,
+    accepted: u64,
+    rejected: u64,
+    unspecified: u64,
+    valid_noncanonical_rejected: u64,
+}
+
+/// Judges one TLV against the oracle through both decoder entry points.
+fn check_decode(ctx: &mut Ctx, st: &mut DecodeStats, tag: u8, content: &[u8], tlv: &[u8], class: &str) {
+    let expect = oracle_parse(tag, content);
+    let got = [("take_from", lib_take_from(tlv)), ("take_opt_from", lib_take_opt_from(tlv))];
+    st.evals += 2;
+    let lit = |got: &[(&str, Option<Time>); 2]| {
+        json!({
+            "tag": format!("0x{:02x}", tag),
+            "content_ascii": ascii(content),
+            "der": hex(tlv),
+            "oracle": format!("{:?}", expect),
+            "take_from": got[0].1.map(|t| t.to_rfc3339()),
+            "take_opt_from": got[1].1.map(|t| t.to_rfc3339()),
+            "mutation": class,
+        })
+    };
+    let any_accept = got.iter().any(|g| g.1.is_some());
+    if any_accept {
+        st.accepted += 1;
+    } else {
+        st.rejected += 1;
+    }
+    match expect {
+        Parsed::Reject(reason) => {
+            if any_accept {
+                ctx.violation(
+                    &format!("C17:time-decode:accepted-invalid:{}", reason.text()),
+                    &format!("time value '{}' (tag 0x{:02x}) is accepted although it is not a strict form: {}", ascii(content), tag, reason.text()),
+                    lit(&got),
+                );
+            }
+            ctx.sig(&format!("decode {} {} oracle=reject:{} lib={}", if tag == T_UTC { "utc" } else if tag == T_GEN { "gen" } else { "othertag" }, class, reason.text().split("-0x").next().unwrap_or(""), if any_accept { "accept" } else { "reject" }));
+        }
+        Parsed::Unspecified => {
+            st.unspecified += 1;
+            ctx.obs(if any_accept { "year0000_accepted" } else { "year0000_rejected" }, 1);
+        }
+        Parsed::Accept { instant, year } => {
+            for (name, g) in &got {
+                match g {
+                    Some(t) => {
+                        if instant_of_time(t) != (instant, 0) {
+                            ctx.violation(
+                                &format!("C17:time-decode:wrong-instant:{}", if tag == T_UTC { "utctime" } else { "generalizedtime" }),
+                                &format!("{} decodes '{}' to instant {:?}, the calendar says {}", name, ascii(content), instant_of_time(t), instant),
+                                lit(&got),
+                            );
+                        }
+                    }
+                    None => {
+                        if canonical_tag(year) == tag {
+                            ctx.violation(
+                                &format!("C17:time-decode:rejected-valid:{}", if tag == T_UTC { "utctime" } else { "generalizedtime" }),
+                                &format!("{} rejects the valid canonical time '{}'", name, ascii(content)),
+                                lit(&got),
+                            );
+                        } else {
+                            st.valid_noncanonical_rejected += 1;
+                        }
+                    }
+                }
+            }
+            ctx.sig(&format!("decode {} {} oracle=accept lib={}", if tag == T_UTC { "utc" } else { "gen" }, class, if any_accept { "accept" } else { "reject" }));
+        }
+    }
+}
+
+fn decode_content(ctx: &mut Ctx, st: &mut DecodeStats, tag: u8, content: &[u8], class: &str) {
+    let tlv = der::tlv(tag, content);
+    check_decode(ctx, st, tag, content, &tlv, class);
+}
+
+/// Valid base strings (tag, content).
+fn base_strings(ctx: &Ctx, n: usize) -> Vec<(u8, Vec<u8>)> {
+    let mut out: Vec<(u8, Vec<u8>)> = Vec::new();
+    let fixed_utc = [
+        "500101000000Z", "491231235959Z", "000229120000Z", "990228235959Z", "200101000000Z", "240229000000Z", "381019031407Z", "700101000000Z",
+        "691231235959Z", "101010101010Z", "121212121212Z", "310731233000Z",
+    ];
+    let fixed_gen = [
+        "00010101000000Z", "99991231235959Z", "19491231235959Z", "20500101000000Z", "19000228235959Z", "20000229000000Z", "21000228120000Z",
+        "24000229235959Z", "15821015000000Z", "10101010101010Z", "20200101000000Z", "00040229000000Z",
+    ];
+    for s in fixed_utc {
+        out.push((T_UTC, s.as_bytes().to_vec()));
+    }
+    for s in fixed_gen {
+        out.push((T_GEN, s.as_bytes().to_vec()));
+    }
+    let mut rng = ctx.rng("decode-bases");
+    // the base list must be the same in every shard: derive from seed only
+    let mut rng_all = crate::core::Rng::derive(ctx.seed, &["C17", "decode-bases"], &[]);
+    let _ = &mut rng;
+    while out.len() < n {
+        let utc = rng_all.bool();
+        let y: i64 = if utc { 1950 + rng_all.below(100) as i64 } else { 1 + rng_all.below(9999) as i64 };
+        let m = 1 + rng_all.below(12) as u32;
+        let d = match rng_all.below(4) {
+            0 => days_in_month(y, m),
+            1 => 1,
+            _ => 1 + rng_all.below(days_in_month(y, m) as u64) as u32,
+        };
+        let (h, mi, s) = match rng_all.below(4) {
+            0 => (23, 59, 59),
+            1 => (0, 0, 0),
+            _ => (rng_all.below(24) as u32, rng_all.below(60) as u32, rng_all.below(60) as u32),
+        };
+        let text = if utc {
+            format!("{:02}{:02}{:02}{:02}{:02}{:02}Z", y % 100, m, d, h, mi, s)
+        } else {
+            format!("{:04}{:02}{:02}{:02}{:02}{:02}Z", y, m, d, h, mi, s)
+        };
+        out.push((if utc { T_UTC } else { T_GEN }, text.into_bytes()));
+    }
+    out.truncate(n);
+    out
+}
+
+fn part_decode(ctx: &mut Ctx) {
+    let mut st = DecodeStats { evals: 0, accepted: 0, rejected: 0, unspecified: 0, valid_noncanonical_rejected: 0 };
+    let nshards = ctx.nshards.max(1);
+    let (nbases, doubles, all_bytes): (usize, bool, bool) = match (ctx.stage, ctx.tier) {
+        (Stage::Native, Tier::Thorough) => (1000, true, true),
+        (Stage::Native, Tier::Quick) => (40, true, true),
+        (Stage::Asan, _) => (24, true, false),
+        _ => (4, false, false),
+    };
+    let miri_like = !matches!(ctx.stage, Stage::Native | Stage::Asan);
+    let mut bases = base_strings(ctx, nbases.max(24));
+    if miri_like {
+        // two UTCTime and two GeneralizedTime bases from the fixed list
+        let pick: &[usize] = if nshards > 4 { &[0, 12, 2, 17, 5, 20, 7, 14] } else { &[0, 12, 2, 17] };
+        bases = pick.iter().map(|&i| bases[i].clone()).collect();
+    }
+    let thin = |k: usize, m: usize| -> bool { miri_like && k % m != 0 };
+    for (bi, (tag, base)) in bases.iter().enumerate() {
+        if (bi as u64) % nshards != ctx.shard {
+            continue;
+        }
+        let tag = *tag;
+        let kind = if tag == T_UTC { "utc" } else { "gen" };
+        // the base itself
+        decode_content(ctx, &mut st, tag, base, "valid-base");
+        let n = base.len();
+        let mut work = base.clone();
+        // single substitutions
+        for p in 0..n {
+            if miri_like && p % 6 != bi % 6 {
+                continue;
+            }
+            for &ch in ALPHABET {
+                if ch == base[p] {
+                    continue;
+                }
+                work[p] = ch;
+                let class = format!("sub1 {}:{}", field_of(tag, p), char_class(ch));
+                decode_content(ctx, &mut st, tag, &work, &class);
+            }
+            if all_bytes {
+                for ch in 0..=255u8 {
+                    if ch == base[p] || ALPHABET.contains(&ch) {
+                        continue;
+                    }
+                    work[p] = ch;
+                    let class = format!("sub1 {}:{}", field_of(tag, p), char_class(ch));
+                    decode_content(ctx, &mut st, tag, &work, &class);
+                }
+            }
+            work[p] = base[p];
+        }
+        // double substitutions
+        if doubles {
+            for p in 0..n {
+                for q in p + 1..n {
+                    for &c1 in ALPHABET {
+                        if c1 == base[p] {
+                            continue;
+                        }
+                        work[p] = c1;
+                        for &c2 in ALPHABET {
+                            if c2 == base[q] {
+                                continue;
+                            }
+                            work[q] = c2;
+                            let tlv = der::tlv(tag, &work);
+                            // class strings are built lazily: only the (field, class) pair
+                            let class = [field_of(tag, p), ":", char_class(c1), "+", field_of(tag, q), ":", char_class(c2)].concat();
+                            check_decode(ctx, &mut st, tag, &work, &tlv, &format!("sub2 {class}"));
+                        }
+                        work[q] = base[q];
+                    }
+                    work[p] = base[p];
+                }
+            }
+        }
+        // length changes
+        for cut in 0..n {
+            if thin(cut, 3) {
+                continue;
+            }
+            decode_content(ctx, &mut st, tag, &base[..cut], "truncated");
+            let mut v = base[..cut].to_vec();
+            v.push(b'Z');
+            if v.len() != n {
+                decode_content(ctx, &mut st, tag, &v, "truncated+Z");
+            }
+        }
+        for p in 0..n {
+            if thin(p, 3) {
+                continue;
+            }
+            let mut v = base.clone();
+            v.remove(p);
+            decode_content(ctx, &mut st, tag, &v, "deleted-one");
+            if miri_like {
+                continue;
+            }
+            for &ch in ALPHABET {
+                let mut v = base.clone();
+                v.insert(p, ch);
+                decode_content(ctx, &mut st, tag, &v, &format!("inserted-one {}", char_class(ch)));
+            }
+        }
+        for (k, &ch) in ALPHABET.iter().enumerate() {
+            if thin(k + 2, 4) {
+                continue;
+            }
+            let mut v = base.clone();
+            v.push(ch);
+            decode_content(ctx, &mut st, tag, &v, &format!("appended-after-Z {}", char_class(ch)));
+        }
+        // other ASN.1 time shapes that RFC 5280 excludes
+        let body = &base[..n - 1];
+        let mut shapes: Vec<(Vec<u8>, &str)> = Vec::new();
+        shapes.push(([&body[..n - 3], b"Z"].concat(), "seconds-omitted"));
+        shapes.push(([body, b".0Z"].concat(), "fraction"));
+        shapes.push(([body, b".000Z"].concat(), "fraction"));
+        shapes.push(([body, b",5Z"].concat(), "fraction"));
+        shapes.push(([body, b"+0000"].concat(), "offset"));
+        shapes.push(([body, b"-0100"].concat(), "offset"));
+        shapes.push(([&body[..n - 3], b"+0000"].concat(), "offset"));
+        shapes.push((body.to_vec(), "no-terminator"));
+        shapes.push(([body, b"z"].concat(), "lowercase-z"));
+        shapes.push(([b" ", body].concat(), "leading-space"));
+        shapes.push(([b"+", &body[1..], b"Z"].concat(), "plus-for-first-digit"));
+        shapes.push(([b"-", &body[1..], b"Z"].concat(), "minus-for-first-digit"));
+        for (v, class) in &shapes {
+            decode_content(ctx, &mut st, tag, v, class);
+        }
+        // the same content under the other time tag and under non-time tags
+        let other = if tag == T_UTC { T_GEN } else { T_UTC };
+        decode_content(ctx, &mut st, other, base, &format!("{kind}-content-under-other-time-tag"));
+        for (k, &t) in [der::T_IA5, der::T_PRINTABLE, der::T_UTF8, der::T_OCTETSTRING, der::T_INTEGER, 0x37, 0x38, 0x97, 0x1a].iter().enumerate() {
+            if thin(k, 3) {
+                continue;
+            }
+            decode_content(ctx, &mut st, t, base, "non-time-tag");
+        }
+    }
+    // calendar-invalid dates: every (month, day) in 00..=99 x 00..=99 for a set of years,
+    // every hour / minute / second 00..=99
+    let years_gen: &[i64] = &[1, 1900, 2000, 2023, 2024, 2100, 9999, 0];
+    let years_utc: &[i64] = &[1950, 2049, 2000, 1999, 2023, 2024, 1900 + 50];
+    let md_step: usize = match ctx.stage {
+        Stage::Native => 1,
+        Stage::Asan => 3,
+        _ => 997,
+    };
+    let mut idx = 0usize;
+    for (is_utc, years) in [(false, years_gen), (true, years_utc)] {
+        for &y in years {
+            idx += 1;
+            if (idx as u64) % nshards != ctx.shard || (miri_like && idx as u64 / nshards % 4 != 0) {
+                continue;
+            }
+            let tag = if is_utc { T_UTC } else { T_GEN };
+            let ytext = if is_utc { format!("{:02}", y % 100) } else { format!("{:04}", y) };
+            let mut k = 0usize;
+            for mo in 0..100u32 {
+                for d in 0..100u32 {
+                    k += 1;
+                    if k % md_step != 0 {
+                        continue;
+                    }
+                    let text = format!("{ytext}{:02}{:02}120000Z", mo, d);
+                    let class = if (1..=12).contains(&mo) && (28..=32).contains(&d) { "calendar month-end" } else if mo == 0 || mo == 13 || d == 0 { "calendar zero-or-13" } else { "calendar grid" };
+                    decode_content(ctx, &mut st, tag, text.as_bytes(), class);
+                }
+            }
+            for v in 0..100u32 {
+                if miri_like && !matches!(v, 0 | 23 | 24 | 59 | 60 | 99) {
+                    continue;
+                }
+                for (fi, field) in ["hour", "minute", "second"].iter().enumerate() {
+                    let mut hms = [12u32, 30, 30];
+                    hms[fi] = v;
+                    let text = format!("{ytext}0228{:02}{:02}{:02}Z", hms[0], hms[1], hms[2]);
+                    let class = format!("clock {} {}", field, if v == 24 || v == 60 { "first-invalid" } else if v < 24 || (fi > 0 && v < 60) { "valid" } else { "invalid" });
+                    decode_content(ctx, &mut st, tag, text.as_bytes(), &class);
+                }
+            }
+        }
+    }
+    ctx.evals(st.evals);
+    ctx.obs("decode_inputs_accepted", st.accepted);
+    ctx.obs("decode_inputs_rejected", st.rejected);
+    ctx.obs("decode_year0000_inputs", st.unspecified);
+    ctx.obs("decode_valid_noncanonical_rejected", st.valid_noncanonical_rejected);
+    if ctx.shard == 0 {
+        for (tag, text) in [(T_UTC, "200230000000Z"), (T_UTC, "2001010000 0Z"), (T_GEN, "21000229000000Z"), (T_GEN, "20000229000000Z"), (T_UTC, "500101000000Z"), (T_UTC, "200101240000Z")] {
+            let tlv = der::tlv(tag, text.as_bytes());
+            let got = lib_take_from(&tlv).map(|t| t.to_rfc3339());
+            let exp = format!("{:?}", oracle_parse(tag, text.as_bytes()));
+            ctx.sample("decode", || json!({"tag": format!("0x{:02x}", tag), "content": text, "oracle": exp, "take_from": got}));
+        }
+    }
+}
+
+//============ Part 3: Validity ================================================
+
+fn instant_pool(ctx: &Ctx, n: usize) -> Vec<i64> {
+    let mut pool: Vec<i64> = Vec::new();
+    let anchors = [
+        instant_of(1, 1, 1, 0, 0, 0),
+        instant_of(1949, 12, 31, 23, 59, 59),
+        instant_of(1970, 1, 1, 0, 0, 0),
+        instant_of(2020, 2, 29, 12, 0, 0),
+        instant_of(2038, 1, 19, 3, 14, 7),
+        instant_of(2049, 12, 31, 23, 59, 59),
+        instant_of(9999, 12, 31, 23, 59, 58),
+    ];
+    for a in anchors {
+        pool.push(a - 1);
+        pool.push(a);
+        pool.push(a + 1);
+    }
+    pool.retain(|&t| t >= instant_of(1, 1, 1, 0, 0, 0) && t <= instant_of(9999, 12, 31, 23, 59, 59));
+    let mut rng = crate::core::Rng::derive(ctx.seed, &["C17", "pool"], &[]);
+    while pool.len() < n {
+        let base = *rng.pick(&anchors);
+        let t = match rng.below(3) {
+            0 => base + rng.below(5) as i64 - 2,
+            1 => base + rng.below(200_000) as i64 - 100_000,
+            _ => instant_of(1, 1, 1, 0, 0, 0) + rng.below(315_537_897_600) as i64,
+        };
+        if t >= instant_of(1, 1, 1, 0, 0, 0) && t <= instant_of(9999, 12, 31, 23, 59, 59) {
+            pool.push(t);
+        }
+    }
+    pool.sort();
+    pool.dedup();
+    if pool.len() > n {
+        // thin out evenly so that early and late instants both stay
+        let len = pool.len();
+        pool = (0..n).map(|i| pool[i * len / n]).collect();
+    }
+    pool
+}
+
+fn rel(a: i64, b: i64) -> &'static str {
+    match a.cmp(&b) {
+        Ordering::Less => {
+            if b - a == 1 {
+                "one-before"
+            } else {
+                "before"
+            }
+        }
+        Ordering::Equal => "equal",
+        Ordering::Greater => {
+            if a - b == 1 {
+                "one-after"
+            } else {
+                "after"
+            }
+        }
+    }
+}
+
+fn part_validity(ctx: &mut Ctx) {
+    let (npool, nwin): (usize, usize) = match (ctx.stage, ctx.tier) {
+        (Stage::Native, Tier::Thorough) => (64, 32),
+        (Stage::Native, Tier::Quick) => (40, 12),
+        (Stage::Asan, _) => (24, 8),
+        _ => (5, 2),
+    };
+    let pool = instant_pool(ctx, npool);
+    let times: Vec<Time> = pool.iter().map(|&t| time_from_instant(t).expect("pool instant")).collect();
+    let nshards = ctx.nshards.max(1);
+    let mut evals = 0u64;
+    let (mut acc, mut rej) = (0u64, 0u64);
+    // verify_at over all triples
+    for (i, &nb) in pool.iter().enumerate() {
+        if (i as u64) % nshards != ctx.shard {
+            continue;
+        }
+        for (j, &na) in pool.iter().enumerate() {
+            let v = Validity::new(times[i], times[j]);
+            if v.not_before() != times[i] || v.not_after() != times[j] {
+                ctx.violation("C17:validity:accessors", "Validity::new does not keep its bounds", json!({"not_before": nb, "not_after": na}));
+            }
+            for (k, &now) in pool.iter().enumerate() {
+                let want = nb <= now && now <= na;
+                let got = v.verify_at(times[k]).is_ok();
+                evals += 1;
+                if got {
+                    acc += 1;
+                } else {
+                    rej += 1;
+                }
+                if got != want {
+                    let what = if want { "rejected-inside" } else { "accepted-outside" };
+                    ctx.violation(
+                        &format!("C17:validity:verify_at:{}:now-{}-not_before:now-{}-not_after", what, rel(now, nb), rel(now, na)),
+                        &format!("verify_at = {} but not_before <= now <= not_after is {}", got, want),
+                        json!({"not_before": nb, "not_after": na, "now": now,
+                               "not_before_text": times[i].to_rfc3339(), "not_after_text": times[j].to_rfc3339(), "now_text": times[k].to_rfc3339()}),
+                    );
+                }
+                if evals % 7 == 0 || now == nb || now == na {
+                    ctx.sig(&format!("verify_at now {} not_before, {} not_after, window {}", rel(now, nb), rel(now, na), if nb <= na { "non-empty" } else { "empty" }));
+                }
+                // the two halves on their own
+                let g1 = times[i].verify_not_before(times[k]).is_ok();
+                let g2 = times[j].verify_not_after(times[k]).is_ok();
+                evals += 2;
+                if g1 != (nb <= now) {
+                    ctx.violation(&format!("C17:validity:verify_not_before:now-{}", rel(now, nb)), "verify_not_before disagrees with not_before <= now", json!({"not_before": nb, "now": now}));
+                }
+                if g2 != (now <= na) {
+                    ctx.violation(&format!("C17:validity:verify_not_after:now-{}", rel(now, na)), "verify_not_after disagrees with now <= not_after", json!({"not_after": na, "now": now}));
+                }
+            }
+        }
+    }
+    ctx.obs("verify_at_accepted", acc);
+    ctx.obs("verify_at_rejected", rej);
+    // trim over all pairs of windows built from a sub-pool, probed with the whole pool
+    let step = (pool.len() / nwin).max(1);
+    let sub: Vec<usize> = (0..pool.len()).step_by(step).take(nwin).collect();
+    let mut windows: Vec<(usize, usize)> = Vec::new();
+    for &a in &sub {
+        for &b in &sub {
+            windows.push((a, b));
+        }
+    }
+    let mut buf = Vec::new();
+    for (wi, &(a1, b1)) in windows.iter().enumerate() {
+        if (wi as u64) % nshards != ctx.shard {
+            continue;
+        }
+        let w1 = Validity::new(times[a1], times[b1]);
+        // DER round trip of the window itself
+        encode_into(w1.encode(), &mut buf);
+        evals += 1;
+        match Mode::Der.decode(buf.as_slice(), Validity::take_from) {
+            Ok(back) if back == w1 => {}
+            other => {
+                ctx.violation(
+                    "C17:validity:der-roundtrip",
+                    "Validity::encode -> take_from does not give the same window",
+                    json!({"not_before": pool[a1], "not_after": pool[b1], "der": hex(&buf), "decoded": format!("{:?}", other.ok())}),
+                );
+            }
+        }
+        for &(a2, b2) in &windows {
+            let w2 = Validity::new(times[a2], times[b2]);
+            let t = w1.trim(w2);
+            let (lo, hi) = (pool[a1].max(pool[a2]), pool[b1].min(pool[b2]));
+            let nonempty = lo <= hi;
+            evals += 1;
+            if nonempty {
+                // a non-empty intersection has exactly these bounds
+                let got = (t.not_before().timestamp(), t.not_after().timestamp());
+                if got != (lo, hi) {
+                    ctx.violation(
+                        "C17:validity:trim:bounds",
+                        &format!("trim gives [{}, {}], the intersection is [{}, {}]", got.0, got.1, lo, hi),
+                        json!({"a": [pool[a1], pool[b1]], "b": [pool[a2], pool[b2]]}),
+                    );
+                }
+            }
+            for (k, &now) in pool.iter().enumerate() {
+                let want = pool[a1] <= now && now <= pool[b1] && pool[a2] <= now && now <= pool[b2];
+                let got = t.verify_at(times[k]).is_ok();
+                evals += 1;
+                if got != want {
+                    ctx.violation(
+                        &format!("C17:validity:trim:membership:{}", if want { "lost-common-instant" } else { "gained-instant" }),
+                        &format!("instant {} is {} both windows but trim().verify_at says {}", now, if want { "in" } else { "not in" }, got),
+                        json!({"a": [pool[a1], pool[b1]], "b": [pool[a2], pool[b2]], "now": now}),
+                    );
+                }
+            }
+            let shape = if pool[a1] > pool[b1] || pool[a2] > pool[b2] {
+                "an-operand-empty"
+            } else if !nonempty {
+                "disjoint"
+            } else if lo == hi {
+                "touching-one-second"
+            } else if (lo, hi) == (pool[a1], pool[b1]) || (lo, hi) == (pool[a2], pool[b2]) {
+                "nested"
+            } else {
+                "overlapping"
+            };
+            ctx.sig(&format!("trim {shape}"));
+        }
+    }
+    ctx.evals(evals);
+    if ctx.shard == 0 && pool.len() >= 3 {
+        let v = Validity::new(times[1], times[2]);
+        ctx.sample("verify_at", || json!({"not_before": pool[1], "not_after": pool[2], "now": pool[2], "expected": true, "observed": v.verify_at(times[2]).is_ok()}));
+        ctx.sample("verify_at", || json!({"not_before": pool[1], "not_after": pool[1], "now": pool[2], "expected": false, "observed": Validity::new(times[1], times[1]).verify_at(times[2]).is_ok()}));
+    }
+}
+
+//============ Part 4: Serial ==================================================
+
+/// Decimal text of an unsigned big-endian integer ("0" for zero).
+fn big_decimal(bytes: &[u8]) -> String {
+    // limbs base 2^32, most significant first
+    let mut limbs: Vec<u32> = Vec::new();
+    let pad = (4 - bytes.len() % 4) % 4;
+    let mut padded = vec![0u8; pad];
+    padded.extend_from_slice(bytes);
+    for c in padded.chunks(4) {
+        limbs.push(u32::from_be_bytes([c[0], c[1], c[2], c[3]]));
+    }
+    let mut groups: Vec<u32> = Vec::new(); // base 10^9, least significant first
+    loop {
+        let mut rem: u64 = 0;
+        let mut all_zero = true;
+        for l in limbs.iter_mut() {
+            let cur = (rem << 32) | *l as u64;
+            *l = (cur / 1_000_000_000) as u32;
+            rem = cur % 1_000_000_000;
+            if *l != 0 {
+                all_zero = false;
+            }
+        }
+        groups.push(rem as u32);
+        if all_zero {
+            break;
+        }
+    }
+    let mut s = format!("{}", groups.pop().unwrap());
+    while let Some(g) = groups.pop() {
+        s.push_str(&format!("{:09}", g));
+    }
+    s
+}
+
+/// Big-integer comparison independent of byte-wise array comparison: by
+/// significant length first, then by 64-bit words.
+fn big_cmp(a: &[u8; 20], b: &[u8; 20]) -> Ordering {
+    fn parts(x: &[u8; 20]) -> (u32, u64, u64) {
+        (
+            u32::from_be_bytes([x[0], x[1], x[2], x[3]]),
+            u64::from_be_bytes([x[4], x[5], x[6], x[7], x[8], x[9], x[10], x[11]]),
+            u64::from_be_bytes([x[12], x[13], x[14], x[15], x[16], x[17], x[18], x[19]]),
+        )
+    }
+    let (a, b) = (parts(a), parts(b));
+    if a.0 != b.0 {
+        return if a.0 < b.0 { Ordering::Less } else { Ordering::Greater };
+    }
+    if a.1 != b.1 {
+        return if a.1 < b.1 { Ordering::Less } else { Ordering::Greater };
+    }
+    if a.2 != b.2 {
+        return if a.2 < b.2 { Ordering::Less } else { Ordering::Greater };
+    }
+    Ordering::Equal
+}
+
+fn serial_values(ctx: &Ctx, random: usize) -> Vec<[u8; 20]> {
+    let mut out: Vec<[u8; 20]> = Vec::new();
+    let mut push = |v: [u8; 20]| out.push(v);
+    push([0; 20]);
+    // every significant length with boundary leading octets and fills
+    for len in 1..=20usize {
+        for &lead in &[0x01u8, 0x0a, 0x3f, 0x40, 0x7f, 0x80, 0x81, 0xbf, 0xc0, 0xff] {
+            for fill in 0..4 {
+                let mut v = [0u8; 20];
+                v[20 - len] = lead;
+                for (k, b) in v.iter_mut().enumerate().skip(20 - len + 1) {
+                    *b = match fill {
+                        0 => 0x00,
+                        1 => 0xff,
+                        2 => {
+                            if k == 19 {
+                                0x01
+                            } else {
+                                0x00
+                            }
+                        }
+                        _ => 0x80,
+                    };
+                }
+                push(v);
+            }
+        }
+    }
+    // 2^k and 2^k - 1
+    for k in 0..160usize {
+        let mut v = [0u8; 20];
+        v[19 - k / 8] = 1 << (k % 8);
+        push(v);
+        let mut w = [0u8; 20];
+        for (i, b) in w.iter_mut().enumerate() {
+            let bit_hi = (19 - i) * 8; // lowest bit index of this octet
+            *b = if bit_hi + 8 <= k {
+                0xff
+            } else if bit_hi < k {
+                (1u16 << (k - bit_hi)) as u8 - 1
+            } else {
+                0
+            };
+        }
+        push(w);
+    }
+    // 10^k - 1, 10^k, 10^k + 1 (decimal length boundaries), by repeated multiplication
+    let mut p = [0u8; 20];
+    p[19] = 1;
+    for _k in 0..48 {
+        let mut minus = p;
+        for i in (0..20).rev() {
+            if minus[i] == 0 {
+                minus[i] = 0xff;
+            } else {
+                minus[i] -= 1;
+                break;
+            }
+        }
+        let mut plus = p;
+        for i in (0..20).rev() {
+            if plus[i] == 0xff {
+                plus[i] = 0;
+            } else {
+                plus[i] += 1;
+                break;
+            }
+        }
+        push(minus);
+        push(p);
+        push(plus);
+        // p *= 10
+        let mut carry: u16 = 0;
+        let mut overflow = false;
+        for i in (0..20).rev() {
+            let x = p[i] as u16 * 10 + carry;
+            p[i] = x as u8;
+            carry = x >> 8;
+        }
+        if carry != 0 {
+            overflow = true;
+        }
+        if overflow {
+            break;
+        }
+    }
+    {
+        let mut seen = std::collections::HashSet::new();
+        out.retain(|v| seen.insert(*v));
+    }
+    let mut rng = ctx.rng("serials");
+    for i in 0..random {
+        let mut v = [0u8; 20];
+        let len = 1 + rng.usize_below(20);
+        let r = rng.bytes(len);
+        v[20 - len..].copy_from_slice(&r);
+        if i % 4 != 0 {
+            v[0] &= 0x7f;
+        }
+        if i % 5 == 0 {
+            // runs of 00 / ff
+            let a = rng.usize_below(20);
+            let b = a + rng.usize_below(20 - a);
+            let fillb = if rng.bool() { 0x00 } else { 0xff };
+            for x in &mut v[a..=b] {
+                *x = fillb;
+            }
+        }
+        out.push(v);
+    }
+    out
+}
+
+/// A hand-picked boundary list for the interpreter stage (building the big
+/// list alone would take the whole budget there), plus random values.
+fn serial_values_small(ctx: &Ctx, random: usize) -> Vec<[u8; 20]> {
+    fn at(pairs: &[(usize, u8)]) -> [u8; 20] {
+        let mut v = [0u8; 20];
+        for &(i, b) in pairs {
+            v[i] = b;
+        }
+        v
+    }
+    let mut out = vec![
+        [0u8; 20],
+        at(&[(19, 1)]),
+        at(&[(19, 9)]),
+        at(&[(19, 10)]),
+        at(&[(19, 0x7f)]),
+        at(&[(19, 0x80)]),
+        at(&[(19, 0xff)]),
+        at(&[(18, 1)]),
+        at(&[(18, 0x80)]),
+        at(&[(11, 1)]),                                   // 2^64
+        at(&[(12, 0x8a), (13, 0xc7), (14, 0x23), (15, 0x04), (16, 0x89), (17, 0xe8)]), // 10^19
+        at(&[(4, 0x80)]),                                 // 2^127
+        at(&[(0, 0x01)]),                                 // 2^152
+        at(&[(0, 0x40)]),
+        at(&[(0, 0x80)]),                                 // not representable
+    ];
+    let mut max = [0xffu8; 20];
+    max[0] = 0x7f;
+    out.push(max); // 2^159 - 1: 48 decimal digits
+    let mut w = [0xffu8; 20];
+    w[..12].fill(0);
+    out.push(w); // 2^64 - 1
+    let mut rng = ctx.rng("serials");
+    for _ in 0..random {
+        let mut v = [0u8; 20];
+        let len = 1 + rng.usize_below(20);
+        let r = rng.bytes(len);
+        v[20 - len..].copy_from_slice(&r);
+        v[0] &= 0x7f;
+        out.push(v);
+    }
+    out
+}
+
+fn serial_class(v: &[u8; 20]) -> String {
+    let first = v.iter().position(|&b| b != 0);
+    match first {
+        None => "zero".into(),
+        Some(i) => format!("len{} lead-{}", 20 - i, if v[i] & 0x80 != 0 { "high-bit" } else if v[i] >= 0x40 { "0x40-0x7f" } else { "low" }),
+    }
+}
+
+fn part_serial(ctx: &mut Ctx) {
+    let random = ctx.stage_budget((60_000, 10_000_000), 20_000, if ctx.tier == Tier::Thorough { 64 } else { 24 }, 0) as usize;
+    let nshards = ctx.nshards.max(1);
+    let values = if ctx.is_miri() { serial_values_small(ctx, random) } else { serial_values(ctx, random) };
+    let mut evals = 0u64;
+    let (mut n_ok, mut n_top) = (0u64, 0u64);
+    let mut built: Vec<([u8; 20], Serial)> = Vec::new();
+    let mut buf = Vec::new();
+    let boundary_count = values.len() - random.min(values.len());
+    for (idx, v) in values.iter().enumerate() {
+        // boundary values are split by index, random ones are already per shard
+        if idx < boundary_count && (idx as u64) % nshards != ctx.shard {
+            continue;
+        }
+        let lit = |extra: serde_json::Value| json!({"octets": hex(v), "observed": extra});
+        let from_array = Serial::from_array(*v);
+        evals += 1;
+        if v[0] & 0x80 != 0 {
+            // not representable as a 20-octet positive INTEGER content: rejection expected, not demanded
+            n_top += 1;
+            ctx.obs(if from_array.is_err() { "serial_high_bit_rejected" } else { "serial_high_bit_accepted" }, 1);
+            continue;
+        }
+        let s = match from_array {
+            Ok(s) => s,
+            Err(_) => {
+                ctx.violation("C17:serial:from_array-rejects-valid", "a 20-octet value with the top bit clear is rejected", lit(json!(null)));
+                continue;
+            }
+        };
+        n_ok += 1;
+        ctx.sig(&format!("serial {}", serial_class(v)));
+        if s.into_array() != *v {
+            ctx.violation("C17:serial:into_array", "into_array differs from the octets given", lit(json!(hex(&s.into_array()))));
+        }
+        // from_slice with minimal and padded slices
+        let first = v.iter().position(|&b| b != 0).unwrap_or(19);
+        for start in [first, first.saturating_sub(1), 0] {
+            evals += 1;
+            match Serial::from_slice(&v[start..]) {
+                Ok(x) if x == s => {}
+                Err(_) if start != first => ctx.obs("serial_from_slice_padded_rejected", 1),
+                other => {
+                    ctx.violation("C17:serial:from_slice", "from_slice of the same number gives another value", lit(json!({"slice_from": start, "got": format!("{:?}", other.ok())})));
+                }
+            }
+        }
+        // decimal text
+        let want_dec = big_decimal(v);
+        let shown = s.to_string();
+        let as_string: String = s.into();
+        evals += 2;
+        let is_zero = v.iter().all(|&b| b == 0);
+        if shown != as_string {
+            ctx.violation("C17:serial:display-vs-string", "Display and String::from differ", lit(json!({"display": shown, "string": as_string})));
+        }
+        if is_zero {
+            ctx.obs(if shown.is_empty() { "serial_zero_displays_as_empty_string" } else { "serial_zero_displays_as_0" }, 1);
+            if !(shown.is_empty() || shown == "0") {
+                ctx.violation("C17:serial:decimal-text", "decimal text of zero is neither '0' nor empty", lit(json!(shown)));
+            }
+        } else if shown != want_dec {
+            ctx.violation(
+                "C17:serial:decimal-text",
+                &format!("decimal text is '{}', the number is {}", shown, want_dec),
+                lit(json!({"display": shown, "oracle": want_dec})),
+            );
+        }
+        for text in [&shown, &want_dec] {
+            evals += 1;
+            match Serial::from_str(text) {
+                Ok(x) if x == s => {}
+                other => {
+                    ctx.violation(
+                        "C17:serial:decimal-roundtrip",
+                        &format!("from_str('{}') gives {:?}, expected the serial it was printed from", text, other.as_ref().ok().map(|x| hex(&x.into_array()))),
+                        lit(json!(text)),
+                    );
+                }
+            }
+        }
+        // serde uses the decimal text, too
+        if idx % 7 == 0 {
+            evals += 1;
+            let j = serde_json::to_string(&s).unwrap_or_default();
+            match serde_json::from_str::<Serial>(&j) {
+                Ok(x) if x == s => {}
+                other => {
+                    ctx.violation("C17:serial:serde-roundtrip", "serde round trip changes the serial", lit(json!({"json": j, "got": format!("{:?}", other.ok())})));
+                }
+            }
+        }
+        // minimal DER INTEGER
+        let want_der = der::uint_be(v);
+        encode_into(s.encode(), &mut buf);
+        evals += 2;
+        if buf != want_der {
+            let what = if buf.len() > want_der.len() { "not-minimal" } else if buf.len() < want_der.len() { "too-short" } else { "other-octets" };
+            ctx.violation(
+                &format!("C17:serial:der-integer:{}", what),
+                &format!("DER is {}, minimal INTEGER is {}", hex(&buf), hex(&want_der)),
+                lit(json!({"der": hex(&buf), "oracle": hex(&want_der)})),
+            );
+        }
+        match Mode::Der.decode(want_der.as_slice(), Serial::take_from) {
+            Ok(x) if x == s => {}
+            other => {
+                ctx.violation(
+                    "C17:serial:der-decode",
+                    "decoding the minimal INTEGER does not give the serial",
+                    lit(json!({"der": hex(&want_der), "got": format!("{:?}", other.ok())})),
+                );
+            }
+        }
+        // integer constructors
+        if v[..4].iter().all(|&b| b == 0) {
+            let mut w = [0u8; 16];
+            w.copy_from_slice(&v[4..]);
+            evals += 1;
+            if Serial::from(u128::from_be_bytes(w)) != s {
+                ctx.violation("C17:serial:from-u128", "From<u128> gives another serial", lit(json!(null)));
+            }
+            if v[..12].iter().all(|&b| b == 0) {
+                let mut w = [0u8; 8];
+                w.copy_from_slice(&v[12..]);
+                evals += 1;
+                if Serial::from(u64::from_be_bytes(w)) != s {
+                    ctx.violation("C17:serial:from-u64", "From<u64> gives another serial", lit(json!(null)));
+                }
+            }
+        }
+        built.push((*v, s));
+    }
+    // order: neighbours in numeric order, and random pairs
+    let mut sorted = built.clone();
+    sorted.sort_by(|a, b| big_cmp(&a.0, &b.0));
+    let check_pair = |ctx: &mut Ctx, a: &([u8; 20], Serial), b: &([u8; 20], Serial)| {
+        let want = big_cmp(&a.0, &b.0);
+        let got = a.1.cmp(&b.1);
+        if got != want || a.1.partial_cmp(&b.1) != Some(want) || (a.1 == b.1) != (want == Ordering::Equal) {
+            ctx.violation(
+                "C17:serial:order",
+                &format!("cmp gives {:?}, numerically it is {:?}", got, want),
+                json!({"a": hex(&a.0), "b": hex(&b.0)}),
+            );
+        }
+        // decimal text order agrees once the texts are compared as numbers (length, then digits)
+        let (da, db) = (big_decimal(&a.0), big_decimal(&b.0));
+        let dec_order = da.len().cmp(&db.len()).then_with(|| da.cmp(&db));
+        if dec_order != want {
+            ctx.notes.push(format!("C17: oracle decimal order disagrees with oracle big_cmp for {} / {}", hex(&a.0), hex(&b.0)));
+        }
+    };
+    for w in sorted.windows(2) {
+        check_pair(ctx, &w[0], &w[1]);
+        check_pair(ctx, &w[1], &w[0]);
+        evals += 2;
+    }
+    let mut rng = ctx.rng("serial-pairs");
+    if !built.is_empty() {
+        let pairs = ctx.stage_budget((100_000, 10_000_000), 20_000, if ctx.tier == Tier::Thorough { 96 } else { 40 }, 0);
+        for i in 0..pairs {
+            let a = built[rng.usize_below(built.len())];
+            let b = built[rng.usize_below(built.len())];
+            check_pair(ctx, &a, &b);
+            evals += 1;
+            if i < 200 {
+                ctx.sig(&format!("order {} vs {}", serial_class(&a.0), serial_class(&b.0)));
+            }
+        }
+    }
+    // digit strings the type cannot hold must not wrap silently; what else is
+    // accepted is recorded, not judged
+    if ctx.shard == 0 {
+        let too_big = [
+            "730750818665451459101842416358141509827966271488",  // 2^159
+            "1461501637330902918203684832716283019655932542976", // 2^160
+            "1461501637330902918203684832716283019655932542975", // 2^160 - 1
+            "1000000000000000000000000000000000000000000000000", // 10^48
+            "9999999999999999999999999999999999999999999999999",
+            "730750818665451459101842416358141509827966271487", // 2^159 - 1: fits
+            "00000000000000000000000000000000000000000000000000000007",
+        ];
+        for text in too_big {
+            evals += 1;
+            if let Ok(x) = Serial::from_str(text) {
+                let back = big_decimal(&x.into_array());
+                let canon = text.trim_start_matches('0');
+                if back != canon {
+                    ctx.violation(
+                        "C17:serial:from_str-wrong-value",
+                        &format!("from_str('{}') yields {}", text, back),
+                        json!({"text": text, "value_octets": hex(&x.into_array())}),
+                    );
+                }
+                ctx.obs("serial_from_str_large_or_padded_accepted", 1);
+            } else {
+                ctx.obs("serial_from_str_large_or_padded_rejected", 1);
+            }
+        }
+        for text in ["", "+5", "-1", " 5", "5 ", "0x10", "1e3", "١٢"] {
+            match Serial::from_str(text) {
+                Ok(_) => ctx.obs("serial_from_str_nondecimal_accepted", 1),
+                Err(_) => ctx.obs("serial_from_str_nondecimal_rejected", 1),
+            }
+        }
+        let s = Serial::from(0x80u64);
+        encode_into(s.encode(), &mut buf);
+        let d = hex(&buf);
+        ctx.sample("serial", || json!({"value": 128, "decimal": s.to_string(), "der": d, "oracle_der": hex(&der::uint_be(&[0x80]))}));
+        let big = Serial::from_str("730750818665451459101842416358141509827966271487");
+        ctx.sample("serial", || json!({"text": "2^159-1", "parsed_octets": big.ok().map(|x| hex(&x.into_array()))}));
+    }
+    ctx.evals(evals);
+    ctx.obs("serial_values_checked", n_ok);
+    ctx.obs("serial_values_with_high_bit", n_top);
+}
+
+//============ run =============================================================
 
 pub fn run(ctx: &mut Ctx) {
-    ctx.notes.push("C17: monitor not built yet".into());
+    if !oracle_selftest() {
+        ctx.notes.push("C17: oracle self-test failed (calendar anchors); nothing judged".into());
+        return;
+    }
+    ctx.breadcrumb("C17 calendar");
+    part_calendar(ctx);
+    ctx.breadcrumb("C17 decode");
+    part_decode(ctx);
+    ctx.breadcrumb("C17 validity");
+    part_validity(ctx);
+    ctx.breadcrumb("C17 serial");
+    part_serial(ctx);
 }
